@@ -162,19 +162,9 @@ LOG = {"debug": False}
 
 def set_logging(fp, debug):
     """the package logger at DEBUG (messages go to a NullHandler) or silenced: what is parsed must not depend on it"""
-    import logging
-    lg = fp.utils.logger
+    from fpv import common
     LOG["debug"] = bool(debug)
-    if debug:
-        logging.disable(logging.NOTSET)
-        for h in lg.handlers[:]:
-            lg.removeHandler(h)
-        lg.addHandler(logging.NullHandler())
-        lg.propagate = False
-        lg.setLevel(logging.DEBUG)
-    else:
-        lg.setLevel(logging.CRITICAL)
-        logging.disable(logging.CRITICAL)
+    common.set_package_logging(fp, bool(debug))
 
 
 def finp(text, **extra):
@@ -721,6 +711,7 @@ def soup(rng):
 def run(ctx):
     rng = ctx.rng
     from fpv import common
+    set_logging(ctx.fp, False)          # silenced, except where the loop below switches the DEBUG level on
     # ---- corpus: real files of the repository's test-suite and stored witnesses
     files = sorted((common.REPO / "tests").rglob("*.graph")) + sorted((common.CORPUS / "C20").glob("*.graph"))
     for p in files:
@@ -760,7 +751,8 @@ def run(ctx):
             for kind, clines, zero, where in cs[:per_file]:
                 check_corruption(ctx, "K1.corrupted", kind, clines, zero, where)
                 done += 1
-    set_logging(ctx.fp, False)
+    set_logging(ctx.fp, True)           # (the harness default)
+    LOG["debug"] = False
     ctx.rep.cov["corruptions"] = done
 
 
